@@ -205,3 +205,57 @@ fn c18_try_update_never_blocks() {
     assert!(!(held && r));
     drop(guard);
 }
+
+// ---- the writer suspended at each of its own stores, with the REAL writer code ------------------------------
+static mut STORE_BUDGET: usize = usize::MAX;
+static mut STORES_DONE: usize = 0;
+
+/// AtomicU64::store, counted.  Once the budget is used up the store does not happen: the writer is suspended
+/// right before it and never resumes.  (The value is written through as_ptr(): `store` itself is the stubbed fn.)
+fn store_until_suspended(a: &AtomicU64, v: u64, _order: Ordering) {
+    unsafe {
+        if STORES_DONE < STORE_BUDGET {
+            STORES_DONE += 1;
+            *a.as_ptr() = v;
+        }
+    }
+}
+
+/// The states of the header comment are what the ORIGINAL writer leaves behind.  This harness does not assume
+/// them: it runs the real `advance_once` from any quiescent state and cuts it off before its (k+1)-th atomic store,
+/// k = 0, 1, 2, 3 (slot base time, slot voucher, sequence = commit), holding the lock for good.  A lone reader must
+/// then complete in one pass and return a pair that was published as a unit: the old one, or -- only after the
+/// commit -- the new one.  (A writer that commits before the slot is complete fails here.)
+#[kani::proof]
+#[kani::stub(std::hint::spin_loop, spin_hint_is_a_no_op)]
+#[kani::stub(std::thread::yield_now, spin_hint_is_a_no_op)]
+#[kani::stub(std::sync::atomic::Atomic::<u64>::store, store_until_suspended)]
+#[kani::stub(std::sync::Mutex::lock, forbidden_lock)]
+#[kani::unwind(2)]
+fn c18_snapshot_with_real_writer_cut_off_at_every_store() {
+    let (abt, pair) = any_state();
+    let mut guard = abt.lock.try_lock().unwrap(); // the writer: holds the lock for good
+    let upd = vouched(kani::any());
+    let k: usize = kani::any();
+    kani::assume(k <= 3);
+    unsafe {
+        STORE_BUDGET = k;
+        STORES_DONE = 0;
+    }
+    let _ = abt.advance_once(&mut *guard, upd); // the real writer, suspended before its (k+1)-th store
+    let done = unsafe { STORES_DONE };
+    unsafe {
+        STORE_BUDGET = usize::MAX;
+    }
+    let got = abt.snapshot(); // alone; must return (unwinding assertion), must not panic, must not reach Mutex::lock
+    assert!(crate::BASE_TIME_CHECK.check(got.0, got.1));
+    let old = got.0 == pair.0 && bits(got.1) == bits(pair.1);
+    let new = got.0 == upd.0 && bits(got.1) == bits(upd.1);
+    assert!(old || new);
+    // the new pair only once the writer has made all its stores
+    assert!(old || done == 3);
+    kani::cover!(done == 3 && new && !old);
+    kani::cover!(done == 1);
+    kani::cover!(done == 2 && old);
+    drop(guard);
+}
